@@ -105,13 +105,19 @@ Definition classify (max : Z) (last : bool) (i : sitem) : verdict :=
     end
   end.
 
+(* order-sensitive checksum used for observations (two running sums; cheap to
+   evaluate, mirrored by c07Sum in harness/c07.go) *)
+Definition fsum (l : list Z) : Z :=
+  let r := fold_left (fun (p : Z * Z) b => let a := fst p + b + 1 in (a, snd p + a)) l (0, 0) in
+  (snd r mod 68719476736) * 268435456 + fst r mod 268435456.
+
 (* observation of one delivered message: code, token length, token checksum, payload length, payload checksum *)
 Inductive obs := Ob (code tkl tcs plen pcs : Z).
 Definition obs_eqb (a b : obs) : bool :=
   match a, b with Ob c1 t1 s1 p1 q1, Ob c2 t2 s2 p2 q2 =>
     (c1 =? c2) && (t1 =? t2) && (s1 =? s2) && (p1 =? p2) && (q1 =? q2) end.
 Definition obs_of_seen (x : Z * list Z * list Z) : obs :=
-  let '(c, t, p) := x in Ob c (blen t) (csum t) (blen p) (csum p).
+  let '(c, t, p) := x in Ob c (blen t) (fsum t) (blen p) (fsum p).
 
 Fixpoint is_prefix (a b : list obs) : bool :=
   match a, b with
@@ -168,6 +174,9 @@ Definition c07_class (max : Z) (items : list sitem) (chunks : list Z)
   | Some (VOver h) =>
     if negb (is_prefix eh o_hand && zprefix es o_sig) then 1%N
     else if negb (obs_list_eqb o_hand eh && zlist_eqb o_sig es) then 2%N
+    else if sum chunks <? off + h then
+      (* the stream ended inside the oversize header: nothing to close on yet *)
+      (if negb (o_err =? 0) then 5%N else 0%N)
     else if o_err =? 0 then 3%N
     else
       (* bytes handed over before the last read that returned data: the header must not have been complete then *)
